@@ -1,0 +1,222 @@
+// Verification hooks: event tracing and schedule gates.
+//
+// Compiled only with the cargo feature `verif-hooks`; with the feature off the
+// `vemit!`/`vgate!` macros in lib.rs expand to nothing.
+//
+// * `emit` appends one JSON line per event to the file named by
+//   `REDO_VERIF_TRACE` (opened `O_APPEND`, one `write(2)` per line).  Every line
+//   carries the pid and a per-process sequence number; no wall-clock time.
+// * `gate` blocks at a named point until a controller answers, if
+//   `REDO_VERIF_GATE` names a directory holding the request FIFO `req`.  The
+//   process creates `ack.<pid>`, writes `<pid> <point> <json>` to `req` and reads
+//   one byte from its ack FIFO: `g` = go on, `d` = die (SIGKILL to itself).
+//   `REDO_VERIF_GATE_POINTS` (comma separated) restricts the active points.
+
+use std::cell::RefCell;
+use std::env;
+use std::fmt::Write as FmtWrite;
+use std::fs::{File, OpenOptions};
+use std::io::{Read, Write};
+use std::os::unix::fs::OpenOptionsExt;
+use std::path::PathBuf;
+
+struct Tracer {
+    pid: u32,
+    seq: u64,
+    file: Option<File>,
+    opened: bool,
+}
+
+thread_local! {
+    static TRACER: RefCell<Tracer> = RefCell::new(Tracer { pid: 0, seq: 0, file: None, opened: false });
+}
+
+/// Values that can be written as JSON by the hooks.
+pub trait VJson {
+    fn vjson(&self, out: &mut String);
+}
+
+macro_rules! vjson_int {
+    ($($t:ty),*) => {$(
+        impl VJson for $t {
+            fn vjson(&self, out: &mut String) {
+                let _ = write!(out, "{}", self);
+            }
+        }
+    )*};
+}
+vjson_int!(i8, i16, i32, i64, u8, u16, u32, u64, usize, isize);
+
+impl VJson for bool {
+    fn vjson(&self, out: &mut String) {
+        out.push_str(if *self { "true" } else { "false" });
+    }
+}
+
+impl VJson for str {
+    fn vjson(&self, out: &mut String) {
+        out.push('"');
+        for c in self.chars() {
+            match c {
+                '"' => out.push_str("\\\""),
+                '\\' => out.push_str("\\\\"),
+                '\n' => out.push_str("\\n"),
+                '\r' => out.push_str("\\r"),
+                '\t' => out.push_str("\\t"),
+                c if (c as u32) < 0x20 => {
+                    let _ = write!(out, "\\u{:04x}", c as u32);
+                }
+                c => out.push(c),
+            }
+        }
+        out.push('"');
+    }
+}
+
+impl VJson for String {
+    fn vjson(&self, out: &mut String) {
+        self.as_str().vjson(out)
+    }
+}
+
+impl<T: VJson + ?Sized> VJson for &T {
+    fn vjson(&self, out: &mut String) {
+        (**self).vjson(out)
+    }
+}
+
+impl<T: VJson> VJson for Option<T> {
+    fn vjson(&self, out: &mut String) {
+        match self {
+            Some(v) => v.vjson(out),
+            None => out.push_str("null"),
+        }
+    }
+}
+
+impl<T: VJson> VJson for [T] {
+    fn vjson(&self, out: &mut String) {
+        out.push('[');
+        for (i, v) in self.iter().enumerate() {
+            if i > 0 {
+                out.push(',');
+            }
+            v.vjson(out);
+        }
+        out.push(']');
+    }
+}
+
+impl<T: VJson> VJson for Vec<T> {
+    fn vjson(&self, out: &mut String) {
+        self.as_slice().vjson(out)
+    }
+}
+
+/// Pre-rendered JSON.
+pub struct Raw(pub String);
+
+impl VJson for Raw {
+    fn vjson(&self, out: &mut String) {
+        out.push_str(&self.0);
+    }
+}
+
+/// Reports whether event tracing is switched on for this process.
+pub fn tracing() -> bool {
+    env::var_os("REDO_VERIF_TRACE").map_or(false, |v| !v.is_empty())
+}
+
+/// Append one event line to the trace.
+pub fn emit(ev: &str, fields: &[(&str, &dyn VJson)]) {
+    if !tracing() {
+        return;
+    }
+    TRACER.with(|t| {
+        let mut t = t.borrow_mut();
+        let pid = std::process::id();
+        if t.pid != pid {
+            // first use, or we are a fork()ed child: own sequence numbers.
+            t.pid = pid;
+            t.seq = 0;
+        }
+        if !t.opened {
+            t.opened = true;
+            if let Some(p) = env::var_os("REDO_VERIF_TRACE") {
+                t.file = OpenOptions::new()
+                    .append(true)
+                    .create(true)
+                    .custom_flags(libc::O_CLOEXEC)
+                    .open(PathBuf::from(p))
+                    .ok();
+            }
+        }
+        t.seq += 1;
+        let mut line = String::with_capacity(128);
+        let _ = write!(line, "{{\"pid\":{},\"seq\":{},\"ev\":", pid, t.seq);
+        ev.vjson(&mut line);
+        for (k, v) in fields {
+            line.push(',');
+            k.vjson(&mut line);
+            line.push(':');
+            v.vjson(&mut line);
+        }
+        line.push_str("}\n");
+        if let Some(f) = t.file.as_mut() {
+            let _ = f.write_all(line.as_bytes());
+        }
+    });
+}
+
+fn gate_active(point: &str) -> Option<PathBuf> {
+    let dir = env::var_os("REDO_VERIF_GATE")?;
+    if dir.is_empty() {
+        return None;
+    }
+    if let Ok(points) = env::var("REDO_VERIF_GATE_POINTS") {
+        if !points.is_empty() && !points.split(',').any(|p| p == point) {
+            return None;
+        }
+    }
+    Some(PathBuf::from(dir))
+}
+
+/// Block at a named point until the controller lets us continue (or kills us).
+pub fn gate(point: &str, fields: &[(&str, &dyn VJson)]) {
+    let dir = match gate_active(point) {
+        Some(d) => d,
+        None => return,
+    };
+    let pid = std::process::id();
+    let ack = dir.join(format!("ack.{}", pid));
+    if !ack.exists() {
+        let _ = nix::unistd::mkfifo(&ack, nix::sys::stat::Mode::from_bits_truncate(0o600));
+    }
+    let mut line = String::with_capacity(128);
+    let _ = write!(line, "{} {} {{", pid, point);
+    for (i, (k, v)) in fields.iter().enumerate() {
+        if i > 0 {
+            line.push(',');
+        }
+        k.vjson(&mut line);
+        line.push(':');
+        v.vjson(&mut line);
+    }
+    line.push_str("}\n");
+    let sent = OpenOptions::new()
+        .write(true)
+        .open(dir.join("req"))
+        .and_then(|mut f| f.write_all(line.as_bytes()));
+    if sent.is_err() {
+        return;
+    }
+    let mut b = [0u8; 1];
+    let got = File::open(&ack).and_then(|mut f| f.read(&mut b));
+    if let Ok(1) = got {
+        if b[0] == b'd' {
+            unsafe {
+                libc::kill(libc::getpid(), libc::SIGKILL);
+            }
+        }
+    }
+}
